@@ -47,12 +47,22 @@ func (w *C16) Run(t *rt.Tape, trace bool, seed uint64) *core.Result {
 	}
 	lenGE, lenEG := len(ref.GE), len(ref.EG)
 	trials := 4 + t.Choose(rt.SGen, 8)
+	// window mode: consecutive byte offsets of one direction, one mask - dense
+	// local enumeration instead of scattered samples
+	win := twopc.NewWindow(t, lenGE, lenEG)
+	if win != nil {
+		trials = win.Trials
+		res.Reach["window-enumerations"]++
+	}
 	type smpF struct {
 		Sample
 		Faults []string
 	}
 	for k := 0; k < trials; k++ {
 		ge, eg, desc := twopc.DrawFaults(t, lenGE, lenEG)
+		if win != nil {
+			ge, eg, desc = win.Fault(k)
+		}
 		simrand.Reseed(seed)
 		simnet.Reset()
 		p := pipe
